@@ -6,6 +6,7 @@ import Driver.Loop
 import Driver.SpecOps
 import Driver.SM4
 import Driver.SM3
+import Driver.SM4Modes
 open Gmsm
 
 def dispatch (toks : List String) : String :=
@@ -15,6 +16,8 @@ def dispatch (toks : List String) : String :=
     match toks with
     | "sm4hist" :: rest => Driver.sm4hist rest
     | "sm3hist" :: rest => Driver.sm3hist rest
+    | "sm4mode" :: rest => Driver.sm4mode rest
+    | "sm4mseq" :: rest => Driver.sm4mseq rest
     | _ => "bad-op"
 
 def main : IO Unit := Driver.run dispatch
